@@ -40,23 +40,15 @@ def _java(gc: str, xmx: str) -> list[str]:
 
 
 def _jtmp() -> Path:
-    jtmp = WORK / "jtmp"
+    # one directory per check process: checks that run side by side never touch each other's
+    jtmp = WORK / "jtmp" / str(os.getpid())
     jtmp.mkdir(parents=True, exist_ok=True)
     return jtmp
 
 
 def sweep_jtmp() -> None:
-    """Remove what TLC processes of finished runs left in the private java.io.tmpdir (empty tlc-* directories)."""
-    jtmp = WORK / "jtmp"
-    if jtmp.exists():
-        for d in jtmp.iterdir():
-            try:
-                if d.is_dir() and not d.name.startswith("SANY"):
-                    d.rmdir()          # only empty ones: a concurrent run's live directory is not empty or is recreated
-                elif d.is_dir():
-                    shutil.rmtree(d, ignore_errors=True)      # SANY's unpacked standard modules
-            except OSError:
-                pass
+    """Remove what the TLC / SANY processes of THIS check left in its private java.io.tmpdir."""
+    shutil.rmtree(WORK / "jtmp" / str(os.getpid()), ignore_errors=True)
 
 
 _RE_STATES = re.compile(
